@@ -46,9 +46,12 @@ Definition aobserve (r : list gval * list gval) : aobs :=
                | VEff x [VObj _ fs] :: _ => if x =? "receiver" then lookup fs "txsAvailable" else None
                | _ => None
                end |}.
+(* the translated functions that run inside this lemma file; every other call is a scripted collaborator *)
+Definition agg_funs : list (string * gfun) :=
+  filter (fun p => (fst p =? "Manager.lazyAggregationLoop$lazyTimer") || (fst p =? "Manager.lazyAggregationLoop$blockTimer") || (fst p =? "Manager.lazyAggregationLoop$txNotifyCh") || (fst p =? "Manager.normalAggregationLoop$blockTimer") || (fst p =? "Manager.normalAggregationLoop$txNotifyCh") || (fst p =? "Manager.produceBlock") || (fst p =? "getRemainingSleep")) gen_funs.
 Definition run_case (name : string) (w : aworld) : option aobs :=
-  match lookup gen_funs name with
-  | Some fn => interp (bind (exec 400 gen_funs (agg_globals w) (start_env fn (Some (agg_mgr w)) [ctx_v w; timer_v "blockTimer"]) [] (f_body fn))
+  match lookup agg_funs name with
+  | Some fn => interp (bind (exec 400 agg_funs (agg_globals w) (start_env fn (Some (agg_mgr w)) [ctx_v w; timer_v "blockTimer"]) [] (f_body fn))
                             (fun r => RRet (aobserve r)))
   | None => None
   end.
